@@ -434,7 +434,7 @@ func cmdStmts(args []string) error {
 			if st != nil {
 				enc = encDataStatement(st)
 			}
-			g.emit(fmt.Sprintf("X cfg=%s text=%s %s", cfg, hx(text), enc), res.cls)
+			g.emit(fmt.Sprintf("X cfg=%s text=%s %s tk=%s", cfg, hx(text), enc, hookTokens(text)), res.cls)
 			g.emit("D", dumpStore(g.store))
 		}
 		wo.Flush()
@@ -478,7 +478,7 @@ func cmdStmts(args []string) error {
 				enc = encDataStatement(st)
 				kind = st.Type().String()
 			}
-			g.emit(fmt.Sprintf("X cfg=%s text=%s %s%s", cfg, hx(text), enc, s.intent), res.cls)
+			g.emit(fmt.Sprintf("X cfg=%s text=%s %s%s tk=%s", cfg, hx(text), enc, s.intent, hookTokens(text)), res.cls)
 			hist[kind+"/"+res.cls]++
 			if os.Getenv("VERIF_DEBUG") != "" && res.cls != "ok" {
 				fmt.Fprintf(os.Stderr, "%s | %s | %s\n", res.cls, res.text, text)
